@@ -340,20 +340,36 @@ func (u *Unit) mergeStates(ins []edgeIn) *State {
 				res.heaps[h] = u.def(ite(e.cond, t, rt))
 			}
 		}
+		// version a not-yet-looked-at heap has on each side: its pending tag, else the side's epoch
+		// ("" = entry version); equal versions stay, different ones become a new unknown version
+		resEpoch0 := res.epoch
+		eff := func(p map[string]string, epoch, h string) string {
+			if t, ok := p[h]; ok {
+				return t
+			}
+			return epoch
+		}
 		if res.epoch != e.st.epoch {
 			res.epoch = u.sym("ep")
 		}
-		// heaps havocked by name on either side before anything looked at them
-		for h, tag := range e.st.pending {
-			if res.pending == nil {
-				res.pending = map[string]string{}
-			}
-			if rt, ok := res.pending[h]; !ok || rt != tag {
-				res.pending[h] = u.sym("hv")
-			}
+		var phs []string
+		for h := range e.st.pending {
+			phs = append(phs, h)
 		}
 		for h := range res.pending {
 			if _, ok := e.st.pending[h]; !ok {
+				phs = append(phs, h)
+			}
+		}
+		sort.Strings(phs)
+		for _, h := range phs {
+			if res.pending == nil {
+				res.pending = map[string]string{}
+			}
+			te, tr := eff(e.st.pending, e.st.epoch, h), eff(res.pending, resEpoch0, h)
+			if te == tr {
+				res.pending[h] = te
+			} else {
 				res.pending[h] = u.sym("hv")
 			}
 		}
